@@ -632,3 +632,21 @@ func (p *Pool) Put(x any) {
 	p.items = append(p.items, x)
 	p.mu.Unlock()
 }
+
+// Protect runs fn and converts a panic of the code under test into a string.
+// The simulator's own unwinding (step budget, deadlock) passes through.
+func Protect(fn func()) (panicMsg string) {
+	defer func() {
+		if r := recover(); r != nil {
+			if a, ok := r.(abortSentinel); ok {
+				panic(a)
+			}
+			panicMsg = normPanic(r)
+			if panicMsg == "" {
+				panicMsg = "panic"
+			}
+		}
+	}()
+	fn()
+	return ""
+}
